@@ -7,6 +7,7 @@
 From Coq Require Import List ZArith Bool Arith.
 Import ListNotations.
 From TI Require Import model.Settings proofs.SettingsProofs.
+From TI Require Import model.SettingsRender proofs.SettingsRenderProofs.
 
 (** effective value of a class = own value if set, else nearest ancestor's, else default —
     after every history of set / unset / invalid-set operations on any class or instance *)
@@ -91,3 +92,74 @@ Theorem C20_native_anim_global :
   forall ops c1 c2, gread (grun ops) c1 = gspec ops /\ gread (grun ops) c2 = gspec ops.
 Proof. exact native_anim_global. Qed.
 Print Assumptions C20_native_anim_global.
+
+(** ** Round 4: the method a render ACTUALLY uses, over histories that interleave set / unset
+    of the render method at every level, operations on the global native-animation limit
+    and renders of sources of every kind and data size ([model/SettingsRender.v]).
+
+    [render_used] is the decision as the code takes it (it reads the data size and the
+    limit, for the warning); [spec_render] / [spec_rtrace] state the documented rule on
+    the history alone, without size or limit in the method. *)
+
+(** every render of every history reports what the documented rule says *)
+Theorem C20_render_trace_spec :
+  forall k par, wf_par par -> forall icls src h,
+    rtrace k par icls src (rinit k) h = spec_rtrace k par icls src [] h.
+Proof. exact rtrace_spec. Qed.
+Print Assumptions C20_render_trace_spec.
+
+(** after every history, whatever the limit then is and whatever the data size: a render
+    without a per-call method uses the instance's effective method (own, else nearest
+    class's, else default) on every source that method applies to ... *)
+Theorem C20_render_uses_effective_after_history :
+  forall k par, wf_par par -> forall icls src h i fr,
+    applies (spec_inst k par icls (meth_ops h) i) (s_animated src i) fr = true ->
+    forall x, snd (rstep k par icls src (rrun k par h) (RRender i None fr)) = Some x ->
+    used x = spec_inst k par icls (meth_ops h) i.
+Proof. exact render_uses_effective_after_history. Qed.
+Print Assumptions C20_render_uses_effective_after_history.
+
+(** ... and a per-call method wins *)
+Theorem C20_render_override_after_history :
+  forall k par, wf_par par -> forall icls src h i m fr,
+    applies m (s_animated src i) fr = true ->
+    forall x, snd (rstep k par icls src (rrun k par h) (RRender i (Some m) fr)) = Some x ->
+    used x = m.
+Proof. exact render_override_after_history. Qed.
+Print Assumptions C20_render_override_after_history.
+
+(** the data size and the limit never enter the choice of the method (for EVERY value of
+    both) ... *)
+Theorem C20_render_method_ignores_limit :
+  forall eff ov animated frame size limit size' limit',
+    used (render_used eff ov animated frame size limit)
+    = used (render_used eff ov animated frame size' limit').
+Proof. exact render_used_ignores_limit. Qed.
+Print Assumptions C20_render_method_ignores_limit.
+
+Theorem C20_limit_ops_do_not_change_method :
+  forall k par, wf_par par -> forall icls src h g i ov fr x y,
+    snd (rstep k par icls src (rrun k par h) (RRender i ov fr)) = Some x ->
+    snd (rstep k par icls src (rrun k par (h ++ [RLim g])) (RRender i ov fr)) = Some y ->
+    used x = used y.
+Proof. exact limit_ops_do_not_change_method. Qed.
+Print Assumptions C20_limit_ops_do_not_change_method.
+
+(** ... the limit decides the warning only: issued exactly for a native animation whose
+    data size is above it *)
+Theorem C20_render_warned_iff :
+  forall eff ov animated frame size limit,
+    warned (render_used eff ov animated frame size limit) = true
+    <-> used (render_used eff ov animated frame size limit) = ANIM /\ (limit < size)%Z.
+Proof. exact render_warned_iff. Qed.
+Print Assumptions C20_render_warned_iff.
+
+(** the only documented substitution: ANIM -> WHOLE for a non-animated source or a frame
+    of an iterator / animation *)
+Theorem C20_render_anim_fallback :
+  forall eff ov animated frame size limit,
+    let m := match ov with Some m => m | None => eff end in
+    applies m animated frame = false ->
+    used (render_used eff ov animated frame size limit) = WHOLE.
+Proof. exact render_used_fallback. Qed.
+Print Assumptions C20_render_anim_fallback.
